@@ -2,6 +2,10 @@
 #define VF_MOCK_DZN_PUMP_HH
 #include <deque>
 #include <functional>
+#ifdef VF_THREADED
+#include <mutex>
+extern void vf_gate(const char* tag);      // provided by the threaded replay driver
+#endif
 namespace dzn {
 // Deterministic mock dispatcher: posted closures are queued; the test driver drains them.
 struct pump
@@ -9,6 +13,9 @@ struct pump
     std::deque<std::function<void()>> queue;
     int in_dispatcher = 0;       // > 0 while a closure runs in the dispatcher's context
     long executed = 0;
+#ifdef VF_THREADED
+    std::mutex token;            // the dispatcher serialises closures: whoever runs one holds the token
+#endif
     void operator()(const std::function<void()>& e) { queue.push_back(e); }
     void drain()
     {
@@ -21,11 +28,43 @@ struct pump
     }
 };
 // dzn::shell: run the closure in the dispatcher's context, block until done, hand back its result.
+#ifdef VF_THREADED
+// threaded replay: the closure runs inline on the calling thread while it holds the dispatcher token
+// (re-entrant for the thread that holds it)
+inline thread_local int vf_token_depth = 0;
+struct vf_token_guard
+{
+    dzn::pump& p; bool outer;
+    vf_token_guard(dzn::pump& q) : p(q), outer(vf_token_depth == 0)
+    {
+        if (outer) { vf_gate("dispatcher-wait"); p.token.lock(); ++p.in_dispatcher; }
+        ++vf_token_depth;
+    }
+    ~vf_token_guard()
+    {
+        --vf_token_depth;
+        if (outer) { --p.in_dispatcher; ++p.executed; p.token.unlock(); }
+    }
+};
+template <typename L>
+auto shell(dzn::pump& p, L&& l) -> decltype(l())
+{
+    vf_token_guard g(p);
+    return l();
+}
+template <typename L>
+void run_on_dispatcher(dzn::pump& p, L&& l)
+{
+    vf_token_guard g(p);
+    l();
+}
+#else
 template <typename L>
 auto shell(dzn::pump& p, L&& l) -> decltype(l())
 {
     struct guard { dzn::pump& p; guard(dzn::pump& q) : p(q) { ++p.in_dispatcher; } ~guard() { --p.in_dispatcher; ++p.executed; } } g(p);
     return l();
 }
+#endif
 } // namespace dzn
 #endif
